@@ -30,10 +30,60 @@ def simplified(net):
     return len(set(sets)) == N
 
 
-def gen_net(rng, n):
-    for _ in range(2000):
-        net = nets.ordinary_net(rng, n=n, maxdim=3, n_out=rng.choice([0, 1, 2]), hyper=rng.random() < 0.5, max_rank=4)
-        if simplified(net) and net.K <= 9:
+def star_net(rng, n):
+    """a hub tensor whose legs end in small blobs (a vector, or a matrix closed by a vector): the optimum often takes
+    the OUTER product of two contracted blobs before meeting the hub"""
+    sizes = []
+    left = n - 1
+    while left > 0:
+        a = rng.choice([1, 2, 2]) if left >= 2 else 1
+        sizes.append(a)
+        left -= a
+    if len(sizes) < 2 or len(sizes) > 3:
+        return None
+    inputs, dims = [[]], []
+
+    def new(d):
+        dims.append(d)
+        return len(dims)
+    for a in sizes:
+        leg = new(rng.randint(2, 3))
+        inputs[0].append(leg)
+        if a == 2:
+            inner = new(rng.randint(2, 3))
+            inputs.append([leg, inner])
+            inputs.append([inner])
+        else:
+            inputs.append([leg])
+    out = []
+    if rng.random() < 0.8:
+        o = new(rng.randint(2, 4))
+        inputs[0].append(o)
+        out.append(o)
+    for t in inputs:
+        rng.shuffle(t)
+    order = list(range(len(inputs)))
+    rng.shuffle(order)
+    return nets.Net([inputs[i] for i in order], out, dims, kind="star")
+
+
+def gen_net(rng, n, star=False):
+    for _ in range(4000):
+        r = rng.random()
+        if star or (r < 0.2 and n >= 4):
+            net = star_net(rng, n)
+            if net is None:
+                continue
+        else:
+            net = nets.ordinary_net(rng, n=n, maxdim=rng.choice([3, 3, 5]), n_out=rng.choice([0, 1, 2]),
+                                    hyper=rng.random() < 0.5, max_rank=4)
+            if rng.random() < 0.3:
+                # size-1 dimensions: a bond of dimension 1 still connects two tensors
+                dims = list(net.dims)
+                for k in rng.sample(range(net.K), rng.randint(1, min(3, net.K))):
+                    dims[k] = 1
+                net = nets.Net(net.inputs, net.output, dims, kind="ordinary-dim1")
+        if net.N == n and simplified(net) and net.K <= 9:
             return net
     raise RuntimeError
 
@@ -66,12 +116,15 @@ def run(run):
     from cotengra.pathfinders.path_basic import optimize_optimal
     rng = random.Random(run.seed * 10007 + 9)
     quick = run.tier == "quick"
-    plan = [(3, 6), (4, 8), (5, 3), (6, 1)] if quick else [(3, 40), (4, 80), (5, 60), (6, 25), (7, 4)]
+    plan = [(3, 6, 0), (4, 8, 0), (5, 3, 0), (6, 1, 0), (5, 5, 1), (6, 2, 1)] if quick else \
+        [(3, 40, 0), (4, 80, 0), (5, 60, 0), (6, 25, 0), (7, 4, 0), (5, 40, 1), (6, 20, 1), (7, 3, 1)]
     cases, descs = [], []
-    for n, count in plan:
+    for n, count, star in plan:
         for _ in range(count):
-            net = gen_net(rng, n)
+            net = gen_net(rng, n, star=bool(star))
             objs = OBJ if n <= (4 if quick else 5) else rng.sample(OBJ, 3)
+            if star and n >= 5 and quick:
+                objs = [("flops", 0), ("write", 0), ("combo", 64)]
             for (obj, k), outer in itertools.product(objs, (False, True)):
                 minimize = obj if k in (0, 64) else f"{obj}-{k}"
                 kk = 64 if (k == 0 and obj in ("combo", "limit")) else k
